@@ -185,6 +185,8 @@ template <typename T>
 inline vegas_pdf<T> vegas_refine_pdf(vegas_pdf<T> const& pdf, T alpha, std::vector<T> const& data)
 {
     using std::fmax;
+    using std::frexp;
+    using std::ldexp;
     using std::log;
     using std::pow;
 
@@ -199,6 +201,21 @@ inline vegas_pdf<T> vegas_refine_pdf(vegas_pdf<T> const& pdf, T alpha, std::vect
     {
         // load the binned sum of squares into 'tmp'
         tmp.assign(data.begin() + (i + 0) * bins, data.begin() + (i + 1) * bins);
+
+        // only the ratios of the entries matter: if they are so large that the sums below could
+        // overflow, scale them with a power of two (which is exact) so that the largest is below one
+        T const largest = *std::max_element(tmp.begin(), tmp.end());
+
+        if (largest > std::numeric_limits<T>::max() / T(4 * bins))
+        {
+            int exponent = 0;
+            frexp(largest, &exponent);
+
+            for (T& entry : tmp)
+            {
+                entry = ldexp(entry, -exponent);
+            }
+        }
 
         // smooth the entries by averaging over the neighbor(s)
         T previous = tmp[0];
